@@ -471,7 +471,9 @@ fn gen_scn(rng: &mut Rng, pool: &[Pfx], rec: &mut Recorder) -> Scn {
                 let mut s = RmSpec { upd: gen_upd(rng, &focus, &safi_of), mark: false };
                 if s.upd.corrupt == 0 && rng.chance(1, 14) { s.mark = true; rec.bump(if s.upd.ann.is_empty() && s.upd.wd.is_empty() { "rm-ipv6-end-of-rib" } else { "rm-eor-marker-next-to-routes" }); }
                 rec.bump(if s.upd.corrupt != 0 { "rm-damaged" } else if s.upd.ann.is_empty() && s.upd.wd.is_empty() { "rm-no-nlri" } else if s.upd.ann.iter().any(|a| s.upd.wd.contains(a)) { "rm-overlap" } else { "rm-routes" });
-                ops.push(Op::Msg(i, M::Rm(k, s)));
+                ops.push(Op::Msg(i, M::Rm(k, s.clone())));
+                // now and then the same Route Monitoring message again, byte for byte
+                if rng.chance(1, 10) { ops.push(Op::Msg(i, M::Rm(k, s))); rec.bump("rm-repeated-verbatim"); }
             }
             55..=68 => { ops.push(Op::Msg(i, M::PeerDown(k))); rec.bump("op-peer-down"); if rng.chance(3, 5) { ops.push(Op::Msg(i, M::PeerUp(k))); rec.bump("op-peer-up-again"); } }
             69..=71 => { ops.push(Op::Msg(i, M::Term)); rec.bump("op-termination"); if rng.chance(8, 10) { connect(&mut ops, &mut cur, &mut nsess, rng, &routers, r, false); rec.bump("op-reconnect-after-termination"); } }
